@@ -169,7 +169,62 @@ pub fn random_doc(r: &mut Rng) -> Value {
     if r.chance(1, 3) {
         root.insert(format!("o{}", FLAT), flat_obj(r, &mut used));
     }
+    if r.chance(1, 4) && !used.contains("q0") {
+        root.insert(format!("q{}", FLAT), new_elem(r, "q0".to_string(), &mut used, false));
+    }
     Value::from(root)
+}
+
+/// the flattened objects o♭ / q♭ of the root may be nested in each other (key `in♭`): moves between
+/// the two nestings on different replicas exercise reference cycles between flattened objects
+fn renest(r: &mut Rng, root: &mut Map<String, Value>) {
+    let (ko, kq, kin) = (format!("o{}", FLAT), format!("q{}", FLAT), format!("in{}", FLAT));
+    let take_obj = |m: &mut Map<String, Value>, k: &str| -> Option<Map<String, Value>> {
+        match m.get(k) {
+            Some(Value::Object(_)) => m.remove(k).and_then(|v| v.as_object().cloned()),
+            _ => None,
+        }
+    };
+    // un-nest first: collect the two objects wherever they are
+    let mut o = take_obj(root, &ko);
+    let mut q = take_obj(root, &kq);
+    if let Some(om) = o.as_mut() {
+        if q.is_none() {
+            q = take_obj(om, &kin);
+        }
+    }
+    if let Some(qm) = q.as_mut() {
+        if o.is_none() {
+            o = take_obj(qm, &kin);
+        }
+    }
+    match (o, q) {
+        (Some(mut om), Some(mut qm)) => {
+            om.remove(&kin);
+            qm.remove(&kin);
+            match r.below(3) {
+                0 => {
+                    om.insert(kin, Value::from(qm));
+                    root.insert(ko, Value::from(om));
+                }
+                1 => {
+                    qm.insert(kin, Value::from(om));
+                    root.insert(kq, Value::from(qm));
+                }
+                _ => {
+                    root.insert(ko, Value::from(om));
+                    root.insert(kq, Value::from(qm));
+                }
+            }
+        }
+        (Some(om), None) => {
+            root.insert(ko, Value::from(om));
+        }
+        (None, Some(qm)) => {
+            root.insert(kq, Value::from(qm));
+        }
+        _ => {}
+    }
 }
 
 fn flat_obj(r: &mut Rng, used: &mut BTreeSet<String>) -> Value {
@@ -214,8 +269,22 @@ fn mutate_once(r: &mut Rng, d: &mut Value) {
     used.remove("\u{221A}");
     let root = d.as_object_mut().unwrap();
     root.remove("_id");
-    let choice = r.below(16);
+    let choice = r.below(18);
     match choice {
+        16 => {
+            renest(r, root);
+        }
+        17 => {
+            // make sure both flattened objects exist, then nest them one way or the other
+            let (ko, kq) = (format!("o{}", FLAT), format!("q{}", FLAT));
+            if !used.contains("o0") && !used.contains("o1") {
+                root.insert(ko, new_elem(r, "o0".to_string(), &mut used, false));
+            }
+            if !used.contains("q0") {
+                root.insert(kq, new_elem(r, "q0".to_string(), &mut used, false));
+            }
+            renest(r, root);
+        }
         0 | 1 | 2 => {
             // insert an element
             let id = fresh_id(r, &elem_ids(), &used);
@@ -338,11 +407,22 @@ fn mutate_once(r: &mut Rng, d: &mut Value) {
         12 => {
             // flattened object/scalar: appear, disappear, change kind
             let key = format!("o{}", FLAT);
-            if root.contains_key(&key) && r.chance(1, 2) {
+            let o_nested_elsewhere = (used.contains("o0") || used.contains("o1"))
+                && !matches!(root.get(&key), Some(Value::Object(_)));
+            if o_nested_elsewhere {
+                // the object lives inside q♭: move it instead of creating a second one with the same identifier
+                renest(r, root);
+            } else if root.contains_key(&key) && r.chance(1, 2) {
                 root.remove(&key);
             } else {
                 used.remove("o0");
                 used.remove("o1");
+                // an object nested inside o♭ goes away with it
+                if let Some(Value::Object(om)) = root.get(&key) {
+                    if om.contains_key(&format!("in{}", FLAT)) {
+                        used.remove("q0");
+                    }
+                }
                 let v = flat_obj(r, &mut used);
                 root.insert(key, v);
             }
